@@ -191,7 +191,7 @@ fn eval_degenerate(kind: usize) -> (Vec<(String, String)>, String) {
 
 fn eval_forward_transformed(ri: usize, ti: usize, mi: usize) -> (Vec<(String, String)>, String) {
     let (mut fails, sig) = eval_forward_transformed_prev(ri, ti, mi, 0);
-    for pv in 1..6 {
+    for pv in 1..7 {
         fails.extend(eval_forward_transformed_prev(ri, ti, mi, pv).0);
     }
     (fails, sig)
@@ -199,7 +199,7 @@ fn eval_forward_transformed(ri: usize, ti: usize, mi: usize) -> (Vec<(String, St
 
 /// prev_variant: 0 = qs with J4 nudged, 1 = CONSTRAINT_CENTERED on an unconstrained robot (zeros),
 /// 2 = CONSTRAINT_CENTERED on a constrained robot (its centres), 3 = a vector far from qs,
-/// 4 = as 0 with the frame over a robot that carries a tool (offset and tilt), 5 = as 0 over base > tool
+/// 4 = as 0 with the frame over a robot that carries a tool (offset and tilt), 5 = as 0 over base > tool, 6 = as 0 over another frame (turned and shifted) over the bare robot
 fn eval_forward_transformed_prev(ri: usize, ti: usize, mi: usize, prev_variant: usize) -> (Vec<(String, String)>, String) {
     let mut fails = Vec::new();
     let robots = robot_axis(0, &[6]);
@@ -216,12 +216,15 @@ fn eval_forward_transformed_prev(ri: usize, ti: usize, mi: usize, prev_variant: 
     let inner: Arc<dyn rs_opw_kinematics::kinematic_traits::Kinematics> = match prev_variant {
         4 => Arc::new(rs_opw_kinematics::tool::Tool { robot: Arc::new(robot), tool: to_na(&tool) }),
         5 => Arc::new(rs_opw_kinematics::tool::Tool { robot: Arc::new(rs_opw_kinematics::tool::Base { robot: Arc::new(robot), base: to_na(&base) }), tool: to_na(&tool) }),
+        6 => Arc::new(Frame { robot: Arc::new(robot), frame: to_na(&base) }),
         _ => Arc::new(robot),
     };
     let stack_fk = |j: &rs_opw_kinematics::kinematic_traits::Joints| -> Iso {
         match prev_variant {
             4 => fkref::fk(&p, j).mul(&tool),
             5 => base.mul(&fkref::fk(&p, j)).mul(&tool),
+            // a frame post-multiplies the pose of the robot it wraps
+            6 => fkref::fk(&p, j).mul(&base),
             _ => fkref::fk(&p, j),
         }
     };
